@@ -1,28 +1,39 @@
 // c08: correspondence driver of property C08 (source-side caches are
 // transparent: same data, bounded reuse, no cached errors, announced heads).
 //
+// This program only orchestrates.  The streams live in cmd/c08w, which is
+// built here twice: with -tags verif (streams that need the verification hook
+// jrpc2/verif_export_cache.go) and without the tag (end-to-end streams on
+// exported API only).  An edit of the implementation that breaks the hook
+// file (say, renames a field the hook reads) therefore still meets the
+// end-to-end streams and their oracles; the broken hook itself is reported as
+// a case that cannot correspond (CBroken).
+//
 // Streams (every random choice derives from lib.NewRNG(seed); each case has
 // its own forked generator so that a case can be replayed alone):
 //
-//	cache-seq    sequential cache.get with a scripted getter            model-diff + oracle
-//	head-seq     NumHash update/error/get sequences                     model-diff + oracle
-//	attach       Block.Tx / Logs.Add / receipt overwrite on one block   model-diff + oracle
-//	get-seq      Client.Get, caching client vs nocache client vs chain  model-diff + oracle
-//	latest-seq   Client.Latest, poller simulated through the hooks      model-diff + oracle
-//	poller       Client.Latest with the real httpPoll (gated server)    model-diff + oracle
-//	ws           Client.Latest with the real wsListen (scripted socket) model-diff + oracle
-//	cache-conc   real goroutines on one cache                           oracle (+ model-side re-check)
-//	get-conc     real goroutines on one caching client                  oracle (+ model-side re-check)
-//	stress-rl    receipts plan racing a logs plan on one cached block   oracle
-//	stress-tr    reader of a trace plan while another trace plan attaches  oracle
+//	cache-seq    sequential cache.get with a scripted getter            hook   model-diff + oracle
+//	head-seq     NumHash update/error/get sequences                     hook   model-diff + oracle
+//	latest-seq   Client.Latest, poller simulated through the hooks      hook   model-diff + oracle
+//	poller       Client.Latest with the real httpPoll (gated server)    hook   model-diff + oracle
+//	ws           Client.Latest with the real wsListen (scripted socket) hook   model-diff + oracle
+//	cache-conc   real goroutines on one cache                           hook   oracle (+ model-side re-check)
+//	attach       Block.Tx / Logs.Add / receipt / trace attachment       -      model-diff + oracle
+//	get-seq      Client.Get, caching client vs nocache client vs chain  -      model-diff + oracle
+//	get-conc     real goroutines on one caching client                  -      oracle (+ model-side re-check)
+//	stress-rl    receipts plan racing a logs plan on one cached block   -      oracle
+//	stress-tr    reader of a trace plan while another trace plan attaches -    oracle
 package main
 
 import (
+	"crypto/sha1"
+	"encoding/hex"
 	"encoding/json"
 	"fmt"
-	"io"
-	"log/slog"
 	"os"
+	"os/exec"
+	"path/filepath"
+	"strings"
 
 	"verif/harness/lib"
 )
@@ -32,76 +43,152 @@ From Coq Require Import List NArith. Import ListNotations. Open Scope N_scope.`
 
 type desc struct {
 	Kind string `json:"kind"`
-	Seed uint64 `json:"seed"` // seed of this case's own generator
+	Seed uint64 `json:"seed"`
 	Info any    `json:"info,omitempty"`
 }
 
-type stream struct {
-	kind  string
-	quick int
-	thor  int
-	gen   func(seed uint64) lib.Case
+type wcase struct {
+	Coq  string   `json:"coq"`
+	Case lib.Case `json:"case"`
+}
+
+type wout struct {
+	Cases []wcase        `json:"cases"`
+	Stats map[string]int `json:"stats"`
 }
 
 func main() { lib.Main(run) }
 
+func harnessDir() string {
+	exe, err := os.Executable()
+	if err == nil {
+		if d := filepath.Dir(filepath.Dir(exe)); fileExists(filepath.Join(d, "go.mod")) {
+			return d
+		}
+	}
+	return "/verif/harness"
+}
+
+func fileExists(p string) bool { _, err := os.Stat(p); return err == nil }
+
+// the same alternate go.mod bin/check uses for a scratch copy of the repository
+func modfileArgs(harness string) []string {
+	repo := os.Getenv("VERIF_REPO")
+	if repo == "" {
+		return nil
+	}
+	if rp, err := filepath.EvalSymlinks(repo); err == nil && rp == "/repo" {
+		return nil
+	}
+	h := sha1.Sum([]byte(repo))
+	alt := filepath.Join(filepath.Dir(harness), "work", "alt_"+hex.EncodeToString(h[:])[:10]+".mod")
+	if fileExists(alt) {
+		return []string{"-modfile=" + alt}
+	}
+	return nil
+}
+
+func build(harness, out string, tags bool) (string, error) {
+	args := append([]string{"build"}, modfileArgs(harness)...)
+	if tags {
+		args = append(args, "-tags", "verif")
+	}
+	args = append(args, "-o", out, "./cmd/c08w")
+	cmd := exec.Command("go", args...)
+	cmd.Dir = harness
+	cmd.Env = append(os.Environ(), "GOFLAGS=-mod=mod", "GOPROXY=off", "GOSUMDB=off", "GOTOOLCHAIN=local")
+	b, err := cmd.CombinedOutput()
+	return string(b), err
+}
+
+func runWorker(bin string, cfg lib.Cfg, which string, rep *desc) (wout, error) {
+	var res wout
+	outf := bin + ".json"
+	defer os.Remove(outf)
+	args := []string{"-tier", cfg.Tier, "-seed", fmt.Sprint(cfg.Seed), "-o", outf, "-streams", which}
+	if rep != nil {
+		args = append(args, "-replay-kind", rep.Kind, "-replay-seed", fmt.Sprint(rep.Seed))
+	}
+	cmd := exec.Command(bin, args...)
+	cmd.Stderr = os.Stderr
+	if err := cmd.Run(); err != nil {
+		return res, fmt.Errorf("%s: %w", filepath.Base(bin), err)
+	}
+	b, err := os.ReadFile(outf)
+	if err != nil {
+		return res, err
+	}
+	return res, json.Unmarshal(b, &res)
+}
+
 func run(cfg lib.Cfg) error {
-	slog.SetDefault(slog.New(slog.NewTextHandler(io.Discard, nil)))
 	out := lib.NewOut("C08", cfg.Out, header, "run", 100)
 	out.Rule = "cache-seq: at least one hit and one re-fetch (expiry, eviction or failed fetch); " +
 		"head-seq/latest-seq/poller/ws: at least one hit and one miss after the first announcement; " +
 		"attach: an index attached more than once; get-seq/get-conc: two calls with different filter or plan on one cached range; " +
 		"cache-conc: a segment served more than one goroutine"
-	streams := []stream{
-		{"cache-seq", 400, 6000, genCacheSeq},
-		{"head-seq", 250, 5000, genHeadSeq},
-		{"attach", 150, 3000, genAttach},
-		{"get-seq", 140, 2500, genGetSeq},
-		{"latest-seq", 100, 2000, genLatestSeq},
-		{"poller", 12, 150, genPoller},
-		{"ws", 10, 120, genWS},
-		{"cache-conc", 40, 600, genCacheConc},
-		{"get-conc", 30, 400, genGetConc},
-		{"stress-rl", 1, 4, genStressRL},
-		{"stress-tr", 1, 3, genStressTR},
-	}
+	harness := harnessDir()
+	work := filepath.Join(filepath.Dir(harness), "work")
+	os.MkdirAll(work, 0o755)
+	binHook := filepath.Join(work, fmt.Sprintf("c08w-hook-%d", os.Getpid()))
+	binE2E := filepath.Join(work, fmt.Sprintf("c08w-e2e-%d", os.Getpid()))
+	defer os.Remove(binHook)
+	defer os.Remove(binE2E)
 
+	var rep *desc
 	if cfg.Replay != "" {
 		d, err := readReplay(cfg.Replay)
 		if err != nil {
 			return err
 		}
-		for _, s := range streams {
-			if s.kind == d.Kind {
-				out.Add(s.gen(d.Seed))
-			}
-		}
+		rep = &d
 		out.Notes["replay"] = d
-		return out.Flush()
 	}
 
-	root := lib.NewRNG(cfg.Seed)
-	for _, s := range streams {
-		n := s.quick
-		if cfg.Thorough() {
-			n = s.thor
-		}
-		sub := root.Fork()
-		for i := 0; i < n; i++ {
-			out.Add(s.gen(sub.U64()))
-		}
+	// the worker without the hook must build: it uses exported API only
+	if msg, err := build(harness, binE2E, false); err != nil {
+		return fmt.Errorf("building cmd/c08w without the hook: %v\n%s", err, msg)
 	}
-	out.Notes["streams"] = "see harness/cmd/c08/main.go"
-	for k, v := range stats {
-		out.Dist["stat:"+k] = v
+	hookMsg, hookErr := build(harness, binHook, true)
+
+	var parts []wout
+	if hookErr == nil {
+		w, err := runWorker(binHook, cfg, "all", rep)
+		if err != nil {
+			return err
+		}
+		parts = append(parts, w)
+	} else {
+		w, err := runWorker(binE2E, cfg, "nohook", rep)
+		if err != nil {
+			return err
+		}
+		parts = append(parts, w)
+		msg := strings.TrimSpace(hookMsg)
+		if len(msg) > 600 {
+			msg = msg[:600]
+		}
+		out.Notes["hook_build_failed"] = msg
+		out.Add(lib.Case{
+			Coq: "CBroken",
+			Desc: desc{Kind: "hook-build", Info: map[string]any{
+				"what":  "jrpc2/verif_export_cache.go no longer builds against the implementation: the streams that need it (cache-seq, head-seq, latest-seq, poller, ws, cache-conc) did not run",
+				"error": msg}},
+			Kind: "hook-build", OracleOK: true, Size: 1 << 20,
+		})
+	}
+	for _, p := range parts {
+		for _, c := range p.Cases {
+			cc := c.Case
+			cc.Coq = c.Coq
+			out.Add(cc)
+		}
+		for k, v := range p.Stats {
+			out.Dist["stat:"+k] += v
+		}
 	}
 	return out.Flush()
 }
-
-// global distribution counters (branch classes reached)
-var stats = map[string]int{}
-
-func stat(k string) { stats[k]++ }
 
 func readReplay(path string) (desc, error) {
 	var rep struct {
@@ -125,5 +212,3 @@ func readReplay(path string) (desc, error) {
 	}
 	return desc{}, fmt.Errorf("replay file %s names no case", path)
 }
-
-func b2c(b bool) string { return lib.CBool(b) }
